@@ -469,7 +469,9 @@ func (cr *concRun) doOp(c string, op Op, body []byte, slowBody *gatedBody, slowW
 	cr.record(cEvent{T: "res", C: c, R: r, Seq: resSeq})
 }
 
-func (cr *concRun) finalSnapshot(keys []string) cEvent { return cr.finalSnapshotOf([]string{concBucket}, keys) }
+func (cr *concRun) finalSnapshot(keys []string) cEvent {
+	return cr.finalSnapshotOf([]string{concBucket}, keys)
+}
 
 func (cr *concRun) finalSnapshotOf(buckets, keys []string) cEvent {
 	ev := cEvent{T: "final", Seq: cr.next()}
@@ -1073,6 +1075,36 @@ func completeRun(sysName string, other string, seed int64) ([]cEvent, error) {
 	return cr.sorted(), nil
 }
 
+// withDeadline runs one recording with a watchdog: a run whose requests never return (a deadlock in the code
+// under test) is reported as a problem instead of hanging the whole harness; its goroutines are abandoned.
+var runDeadline = 60 * time.Second
+var runHangs int32
+
+var errSkippedAfterHangs = fmt.Errorf("skipped: two earlier runs of this harness invocation hung")
+
+func withDeadline(what string, run func() ([]cEvent, error)) ([]cEvent, error) {
+	if atomic.LoadInt32(&runHangs) >= 2 {
+		// (circuit breaker: a deadlocking change would otherwise cost the deadline once per run)
+		return nil, errSkippedAfterHangs
+	}
+	type result struct {
+		evs []cEvent
+		err error
+	}
+	ch := make(chan result, 1)
+	go func() {
+		evs, err := run()
+		ch <- result{evs, err}
+	}()
+	select {
+	case r := <-ch:
+		return r.evs, r.err
+	case <-time.After(runDeadline):
+		atomic.AddInt32(&runHangs, 1)
+		return nil, fmt.Errorf("%s: the run did not finish within %v: requests never returned (deadlock?)", what, runDeadline)
+	}
+}
+
 func cmdConc(args []string) {
 	fs := flag.NewFlagSet("conc", flag.ExitOnError)
 	systems := fs.String("systems", "mem", "systems")
@@ -1110,9 +1142,11 @@ func cmdConc(args []string) {
 	for _, sysName := range strings.Split(*systems, ",") {
 		if *seqOps > 0 {
 			for i := 0; i < *runs; i++ {
-				evs, err := seqRun(sysName, *seqOps, *seed*977+int64(i))
+				evs, err := withDeadline("seqRun on "+sysName, func() ([]cEvent, error) { return seqRun(sysName, *seqOps, *seed*977+int64(i)) })
 				if err != nil {
-					problems = append(problems, err.Error())
+					if err != errSkippedAfterHangs {
+						problems = append(problems, err.Error())
+					}
 					continue
 				}
 				write(evs, sysName)
@@ -1125,9 +1159,13 @@ func cmdConc(args []string) {
 			for i := 0; i < *runs; i++ {
 				versioned := sysName == "mem" && i%2 == 1
 				multipart := i%3 == 2 && !singleKeyMix
-				evs, err := freeRun(sysName, versioned, clients, *opsPer, *nkeys, *seed*1000+int64(i)*31+int64(clients), multipart)
+				evs, err := withDeadline("freeRun on "+sysName, func() ([]cEvent, error) {
+					return freeRun(sysName, versioned, clients, *opsPer, *nkeys, *seed*1000+int64(i)*31+int64(clients), multipart)
+				})
 				if err != nil {
-					problems = append(problems, err.Error())
+					if err != errSkippedAfterHangs {
+						problems = append(problems, err.Error())
+					}
 					continue
 				}
 				write(evs, sysName)
@@ -1140,9 +1178,11 @@ func cmdConc(args []string) {
 			if d < 0 {
 				dA, dB = -d, 0
 			}
-			evs, err := partRaceRun(sysName, dA, dB, *seed+int64(i))
+			evs, err := withDeadline("partRaceRun on "+sysName, func() ([]cEvent, error) { return partRaceRun(sysName, dA, dB, *seed+int64(i)) })
 			if err != nil {
-				problems = append(problems, sysName+": "+err.Error())
+				if err != errSkippedAfterHangs {
+					problems = append(problems, sysName+": "+err.Error())
+				}
 				continue
 			}
 			write(evs, sysName)
@@ -1150,9 +1190,11 @@ func cmdConc(args []string) {
 		if *gated {
 			for _, first := range []string{"slowput", "slowget"} {
 				for _, other := range []string{"put", "get", "head", "delete", "list", "copyonto", "copyfrom"} {
-					evs, err := gatedRun(sysName, first+":"+other, *seed)
+					evs, err := withDeadline("gatedRun on "+sysName, func() ([]cEvent, error) { return gatedRun(sysName, first+":"+other, *seed) })
 					if err != nil {
-						problems = append(problems, sysName+": "+err.Error())
+						if err != errSkippedAfterHangs {
+							problems = append(problems, sysName+": "+err.Error())
+						}
 						continue
 					}
 					write(evs, sysName)
@@ -1163,9 +1205,11 @@ func cmdConc(args []string) {
 				sys0.Close()
 				if ver {
 					for _, sc := range []string{"vslowput:put", "vslowput:delete", "vslowput:get", "vslowput-fresh:put", "vslowput-fresh:delete", "vslowput:copyonto"} {
-						evs, err := gatedRun(sysName, sc, *seed)
+						evs, err := withDeadline("gatedRun on "+sysName, func() ([]cEvent, error) { return gatedRun(sysName, sc, *seed) })
 						if err != nil {
-							problems = append(problems, sysName+": "+err.Error())
+							if err != errSkippedAfterHangs {
+								problems = append(problems, sysName+": "+err.Error())
+							}
 							continue
 						}
 						write(evs, sysName)
@@ -1173,9 +1217,11 @@ func cmdConc(args []string) {
 				}
 			}
 			for _, other := range []string{"uploadpart", "uploadpart-other", "complete", "get", "initiate"} {
-				evs, err := completeRun(sysName, other, *seed)
+				evs, err := withDeadline("completeRun on "+sysName, func() ([]cEvent, error) { return completeRun(sysName, other, *seed) })
 				if err != nil {
-					problems = append(problems, sysName+": "+err.Error())
+					if err != errSkippedAfterHangs {
+						problems = append(problems, sysName+": "+err.Error())
+					}
 					continue
 				}
 				write(evs, sysName)
